@@ -18,6 +18,7 @@ import (
 	"io"
 	"net"
 	"sync"
+	"sync/atomic"
 	"testing"
 	"testing/synctest"
 	"time"
@@ -472,11 +473,86 @@ func kat(c *mon.Case, r *mon.Run, seed uint64, n int) {
 	}
 }
 
+// concurrentRefClients: k reference clients handshake at the same time against
+// one real server factory (one bridge, one process), each verifying the
+// response byte for byte under its own hour, then exchanging a little payload.
+// What the factory shares between its connections must not leak from one
+// handshake into another.
+func concurrentRefClients(c *mon.Case, r *mon.Run, dir string, k int, seed uint64) {
+	rng := mon.NewRand(seed)
+	b := o4.NewBridge(rng, int(seed%3))
+	sf, err := o4.ServerFactory(dir, b)
+	if err != nil {
+		c.Violation("setup/server-factory", err.Error(), nil)
+		return
+	}
+	var wg sync.WaitGroup
+	var okN atomic.Int64
+	for i := 0; i < k; i++ {
+		i := i
+		crng := mon.NewRand(seed ^ uint64(i+1)*0x9e3779b97f4a7c15)
+		wg.Add(1)
+		c.Go(wg.Done, func() {
+			cw, sw := memwire.Pair(memwire.Options{})
+			defer cw.Close()
+			defer sw.Close()
+			var sc net.Conn
+			var serr error
+			done := make(chan struct{})
+			c.Go(func() { close(done) }, func() { sc, serr = sf.WrapConn(sw) })
+			hoff := int64(i%3) - 1
+			rc, _, _, derr := o4.RefDial(cw, b.Ref, crng, -1, o4.Hours(hoff))
+			<-done
+			if derr != nil || serr != nil {
+				c.Violation("interop/handshake-refclient/concurrent", fmt.Sprintf("%d reference clients at once against one bridge: client %d (clock %+d h) err=%v, real server err=%v", k, i, hoff, derr, serr), nil)
+				return
+			}
+			// payload both ways
+			st := mon.Stream{Key: seed ^ uint64(i)}
+			go func() {
+				buf := make([]byte, 4096)
+				for {
+					if _, err := sc.Read(buf); err != nil {
+						return
+					}
+				}
+			}()
+			if _, err := sc.Write(st.Bytes(0, 700)); err != nil {
+				c.Violation("interop/real-write-failed", fmt.Sprintf("concurrent: %v", err), nil)
+				return
+			}
+			var got int64
+			for got < 700 {
+				pk, err := rc.ReadPackets()
+				for _, q := range pk {
+					if q.Type == ref.PacketPayload {
+						if j := st.Check(q.Data, got); j >= 0 {
+							c.Violation("interop/ref-read-mismatch", fmt.Sprintf("concurrent handshakes: payload byte %d decoded by the reference differs", got+int64(j)), nil)
+							return
+						}
+						got += int64(len(q.Data))
+					}
+				}
+				if err != nil {
+					c.Violation("interop/ref-read-failed", fmt.Sprintf("concurrent handshakes: reference decoder after %d bytes: %v", got, err), nil)
+					return
+				}
+			}
+			okN.Add(1)
+		})
+	}
+	wg.Wait()
+	r.Count("evaluations", int64(k))
+	r.Count("concurrent_refclient_groups", 1)
+	r.Count("concurrent_refclient_handshakes_verified", okN.Load())
+}
+
 func TestCheck(t *testing.T) {
 	r := mon.Start(t, "C06")
 	defer r.Finish()
+	r.SpinWatch(memwire.BytesMoved)
 	_ = rand.Reader
-	r.Note("rule", "every connection has the independent reference implementation on one side: grid of role (reference client vs real server / real client vs reference server) x bridge-line form (cert / legacy node-id+public-key) x IAT mode x table bias x chunking of what the real side reads x reference-client clock in the hour before / the same / the hour after the server's x handshakes during which the epoch hour changes (the first message is held on the wire across the top of the hour, both roles) x padding choice (PRNG, reference at both extremes, real side steered to its minimum and maximum), fresh identity and seed per connection, PRNG payload scripts both ways with reference frames of varied payload/padding split; plus known-answer comparison of ntor.Kdf, the DRBG and framing with the reference on random inputs. Non-trivial = handshake completed and all payload verified in both directions; distinct = distinct parameter tuple.")
+	r.Note("rule", "every connection has the independent reference implementation on one side: grid of role (reference client vs real server / real client vs reference server) x bridge-line form (cert / legacy node-id+public-key) x IAT mode x table bias x chunking of what the real side reads x reference-client clock in the hour before / the same / the hour after the server's x handshakes during which the epoch hour changes (the first message is held on the wire across the top of the hour, both roles) x groups of 8..16 reference clients handshaking at the same time against one bridge x padding choice (PRNG, reference at both extremes, real side steered to its minimum and maximum), fresh identity and seed per connection, PRNG payload scripts both ways with reference frames of varied payload/padding split; plus known-answer comparison of ntor.Kdf, the DRBG and framing with the reference on random inputs. Non-trivial = handshake completed and all payload verified in both directions; distinct = distinct parameter tuple.")
 	dir := o4.StateDir("c06")
 	nPer := r.Pick(2, 16)
 	for _, role := range []string{"refclient", "refserver"} {
@@ -515,6 +591,13 @@ func TestCheck(t *testing.T) {
 				}
 			}
 		}
+	}
+	// many reference clients at once against one bridge
+	for g := 0; g < r.Pick(4, 40); g++ {
+		g := g
+		r.Bubble(fmt.Sprintf("concurrent-refclients/%02d", g), func(c *mon.Case) {
+			concurrentRefClients(c, r, dir, 8+g%9, r.Sub("crc", g))
+		})
 	}
 	// the epoch hour changes while the handshake is in flight
 	for _, role := range []string{"refclient", "refserver"} {
